@@ -99,7 +99,7 @@ def _c17_small(args):
         bias = F(row['bm']) * F(2) ** row['be']
         us = [F(k4, 4) / F(2) ** t[2] for k4 in range(row['glo'], row['ghi'] + 1)]
         modes = (row['r'], row['o'])
-        route = ['ctor', 'call', 'set_val'][idx % 3]
+        route = ['ctor', 'call', 'set_val', 'like', 'template'][idx % 5]
         out.append(x_misc.observe_scaled(fx, np, [pid], t, modes, scale, bias, us, route=route, scalar=False))
         ints = [u for u in us if (u * scale + bias).denominator == 1]
         if len(ints) >= 3:
@@ -135,13 +135,13 @@ def _c17_wide(args):
         if not us:
             continue
         m = rng.choice(MODES)
-        out.append(x_misc.observe_scaled(fx, np, [pid], t, m, scale, bias, us, route=rng.choice(['ctor', 'call', 'set_val']), scalar=True))
-        out.append(x_misc.observe_scaled(fx, np, [pid], t, m, scale, bias, us, route=rng.choice(['ctor', 'call', 'set_val']), scalar=False))
-        out.append(x_misc.observe_scaled(fx, np, [pid], t, m, scale, bias, us, route=rng.choice(['ctor', 'call', 'set_val']), scalar=rng.random() < 0.5,
+        out.append(x_misc.observe_scaled(fx, np, [pid], t, m, scale, bias, us, route=rng.choice(['ctor', 'call', 'set_val', 'like', 'template']), scalar=True))
+        out.append(x_misc.observe_scaled(fx, np, [pid], t, m, scale, bias, us, route=rng.choice(['ctor', 'call', 'set_val', 'like', 'template']), scalar=False))
+        out.append(x_misc.observe_scaled(fx, np, [pid], t, m, scale, bias, us, route=rng.choice(['ctor', 'call', 'set_val', 'like', 'template']), scalar=rng.random() < 0.5,
                                          npcar=rng.choice(['uint8', 'int8', 'int16', 'uint16', 'int32', 'uint32', 'float32', 'float16', 'int64', 'uint64'])))
         ints = [u for u in us if (u * scale + bias).denominator == 1]
         if len(ints) >= 2:
-            out.append(x_misc.observe_scaled(fx, np, [pid], t, m, scale, bias, ints[:3 * (len(ints) // 3)] or ints, route=rng.choice(['ctor', 'call', 'set_val']), scalar=False))
+            out.append(x_misc.observe_scaled(fx, np, [pid], t, m, scale, bias, ints[:3 * (len(ints) // 3)] or ints, route=rng.choice(['ctor', 'call', 'set_val', 'like', 'template']), scalar=False))
         if rng.random() < 0.3:
             out.append(x_misc.observe_scaled(fx, np, [pid], t, ('trunc', 'saturate'), scale, bias, us[:1], scalar=True, infer=True))
     return [o for o in out if o is not None]
